@@ -146,7 +146,11 @@ func (s *expiry) timerCallback() {
 
 	// 1. check for will message available
 	if s.will != nil {
-		// publish if exists and wipe state
+		// publish if exists and wipe state; with RETAIN set it is stored as retained message as well
+		if s.will.Retain() {
+			_ = s.messenger.Retain(s.will)
+		}
+
 		_ = s.messenger.Publish(s.will)
 		s.will = nil
 		s.willIn = 0
